@@ -226,11 +226,12 @@ func (c *c20Conn) SetReadDeadline(t time.Time) error  { return nil }
 func (c *c20Conn) SetWriteDeadline(t time.Time) error { return nil }
 
 // delivery modes: how the byte stream is cut into Read results
-//   framed   : one Read result per event written by the sender (what a TLS
-//              connection yields: the sender flushes after every event, one
-//              record each, and crypto/tls never returns two records at once)
-//   dribble  : one byte per Read
-//   coalesced: all bytes available at once (no message boundaries at all)
+//
+//	framed   : one Read result per event written by the sender (what a TLS
+//	           connection yields: the sender flushes after every event, one
+//	           record each, and crypto/tls never returns two records at once)
+//	dribble  : one byte per Read
+//	coalesced: all bytes available at once (no message boundaries at all)
 func c20Chunks(mode string, wires [][]byte) [][]byte {
 	switch mode {
 	case "framed":
